@@ -186,20 +186,17 @@ func zzH_C12_tmux() {
 		prefix = script[from:to]
 	}
 	zzv.Assert("relaunch-succeeds", code == ExitOk && err == nil)
-	want := []string{marker, "--bind=ctrl-z:ignore"}
-	if opts.Tmux.border {
-		want = append(want, "--margin=0,1")
-	}
-	want = append(want, arg, "--x=y z")
-	if !opts.Tmux.border && opts.BorderShape == tui.BorderUndefined {
-		want = append(want, "--border")
-	}
-	want = append(want, "--no-tmux", "--no-height")
+	// which flags fzf adds for the run inside tmux is its own business: the command must start with
+	// the program and carry the original arguments, in order, each as exactly one word
 	words, active, open := util.ZZShWords(prefix, false)
-	same := len(words) == len(want)
-	for i := 0; same && i < len(want); i++ {
-		same = words[i] == want[i]
+	want := []string{marker, arg, "--x=y z"}
+	k := 0
+	for i, w := range words {
+		if k < len(want) && w == want[k] && (k > 0 || i == 0) {
+			k++
+		}
 	}
+	same := k == len(want)
 	zzv.Observe("nwords", len(words))
 	zzv.Assert("relaunch-arguments-survive-posix-sh", same && !active && !open)
 }
